@@ -202,7 +202,7 @@ fn id_laws(rep: &mut Report, lo: i64, hi: i64) {
             rep.count("ids_known");
             if i32v != 0 && p.id() != i32v {
                 rep.violation(
-                    format!("C14/id/from_id({})", i32v),
+                    "C14/id/from_id-not-inverse-of-id".to_string(),
                     format!("from_id({}) = {:?} whose id() is {}", i32v, p, p.id()),
                     json!({"kind": "id", "id": i32v}),
                 );
